@@ -4,6 +4,7 @@ import gc_rules as G
 import listing as L
 import label as LB
 import hexr as H
+import nx as NX
 
 CONTAINERS = "emap 0.0.13 / micromap 0.0.19 / microstack 0.0.7 as audited (DESIGN §3)"
 HAND = "hand argument DESIGN §5.0: rules ⇒ invariants I1–I3 ⇒ statement"
@@ -99,6 +100,24 @@ PROPS = {
         "rules": [("CC1", H.cc1), ("CC2", H.cc2), ("CC3", H.cc3)],
         "explanation": "CC1 provenance of every appended byte source, CC2 order and recorded length, CC3 operands unchanged.",
         "trusted": [RUSTC],
+        "assumptions": [],
+    },
+    "C05": {
+        "claim": "Decides NX1–NX5, which give the whole statement with exhaustion as a precondition: the allocator position is written only in next_id(); the returned id is the key of a vertex-store item selected by a predicate true only for tag ∈ {0} and key ≥ the pre-state position; every path sets position := id + 1 unless it is already larger; clone copies the position (CL1); merge's descent adds the fresh id on the same paths and a script allocates only as the default of vars.entry(name).",
+        "note": "Trusted: rustc front end + engine; emap iteration yields exactly the Some slots with their keys. Exhaustion (no absent id at or above the position) is a precondition.",
+        "technique": "MIR who-may-write + closure-predicate summary + must-pass-through rules",
+        "rules": [("NX1", NX.nx1), ("NX2/NX3", NX.nx23), ("NX4", NX.cl1), ("NX5", NX.nx5)],
+        "explanation": "NX1 who writes next_v, NX2 predicate (absent ∧ ≥ pre-state position), NX3 position := id+1, NX4 clone copies the position, NX5 internal callers.",
+        "trusted": [RUSTC, CONTAINERS],
+        "assumptions": ["at least one absent id at or above the allocator position remains"],
+    },
+    "C10": {
+        "claim": "Decides CL1–CL4: the aggregate built by clone() initialises each of the four fields from a clone/copy of the same field of the original; Clone of Vertex, Hex, Label, Persistence is derived; the type closure of Sodg declared in this crate contains no Rc, Arc, reference, cell, lock, atomic or raw pointer; clone() writes nothing. Together: every field that determines future behaviour is copied and nothing is shared. Does not decide equality of answers as values (follows with the containers' Clone, trusted).",
+        "note": "Trusted: rustc front end + engine; Clone of emap::Map (fresh storage, every slot cloned), micromap::Map, microstack::Stack, Vec as audited.",
+        "technique": "MIR provenance of the clone aggregate + type facts (derive list, field type closure)",
+        "rules": [("CL1/CL4", NX.cl1), ("CL2/CL3", NX.cl23)],
+        "explanation": "CL1 field-wise provenance (floor 4), CL2 derived Clone on 4 types, CL3 type closure, CL4 no write.",
+        "trusted": [RUSTC, CONTAINERS],
         "assumptions": [],
     },
 }
